@@ -55,7 +55,7 @@ def Conf.loadOk (c : Conf) : Bool := !c.broken && c.hostOk && c.vipOk && c.route
 /-- `ServerDataConf.check` (cluster_conf defines every cluster that is named): every product with route rules
     must be the product of some host tag -/
 def Conf.checkOk (c : Conf) : Bool :=
-  c.routes.all fun pr => (c.entries.map (·.route.product)).contains pr.1
+  c.routes.all fun pr => (pr.2.basic.isNone && pr.2.adv.isNone) || (c.entries.map (·.route.product)).contains pr.1
 
 def Conf.vipTable (c : Conf) : List (List UInt8 × String) := c.vips.filterMap fun (a, p) => a.map fun k => (k, p)
 
